@@ -35,8 +35,11 @@ def verify_contracts(ctx, world, contracts, replayers=None, theory="int"):
             replay = None
             if rp is not None:
                 replay = (lambda model, rp=rp, o=o, c=c: rp(model, o, c))
-            ctx.vc(o.name, fq, to_smt2(o), theory=theory, model_vars=mv, replay=replay,
-                   probe=(o.kind == "probe"), kind=("path-probe" if o.kind == "probe" else o.kind), key=getattr(c, "finding_key", lambda o: None)(o) or o.name)
+            ob = ctx.vc(o.name, fq, to_smt2(o), theory=theory, model_vars=mv, replay=replay,
+                        probe=(o.kind == "probe"), kind=("path-probe" if o.kind == "probe" else o.kind),
+                        key=getattr(c, "finding_key", lambda o: None)(o) or o.name)
+            if getattr(c, "solver_budget", None) and not ob.get("budget"):
+                ob["budget"] = float(c.solver_budget)     # obligations known to be cheap: a failing one must not cost minutes
     ctx.trusted.extend(sorted(world.speclib.used))
 
 
